@@ -25,6 +25,7 @@ type reqSpec struct {
 	Method string
 	Path   string
 	Hdr    map[string]string
+	Body   string
 }
 
 type spy struct {
@@ -145,6 +146,10 @@ func (w *world) serve(t, k int) {
 	for hk, hv := range rs.Hdr {
 		req.Header.Set(hk, hv)
 	}
+	if rs.Body != "" {
+		req.Body = io.NopCloser(strings.NewReader(rs.Body))
+		req.ContentLength = int64(len(rs.Body))
+	}
 	sp := &spy{hdr: http.Header{}, owner: t}
 	w.curIdx[t], w.curReq[t], w.curSpy[t] = k, req, sp
 	sched.Point()
@@ -226,7 +231,7 @@ func planFor(threads int, per func(t int) []reqSpec) [][]reqSpec {
 
 var scenarios = []scenario{
 	{Name: "same-dynamic-route", Build: func(n int) *world {
-		w := newWorld(planFor(n, func(t int) []reqSpec { return []reqSpec{{"GET", fmt.Sprintf("/u/id%d", t), nil}} }))
+		w := newWorld(planFor(n, func(t int) []reqSpec { return []reqSpec{{Method: "GET", Path: fmt.Sprintf("/u/id%d", t)}} }))
 		w.f.Use(func(c flamego.Context) {
 			id := c.Param("id")
 			sched.Point()
@@ -244,7 +249,7 @@ var scenarios = []scenario{
 	}},
 	{Name: "static-shortcut+tree+named-route", Build: func(n int) *world {
 		paths := []string{"/s", "//s", "/n/v"}
-		w := newWorld(planFor(n, func(t int) []reqSpec { return []reqSpec{{"GET", paths[t%3], nil}} }))
+		w := newWorld(planFor(n, func(t int) []reqSpec { return []reqSpec{{Method: "GET", Path: paths[t%3]}} }))
 		h := func(c flamego.Context) string {
 			sched.Point()
 			w.own(c)
@@ -258,7 +263,7 @@ var scenarios = []scenario{
 		return w
 	}},
 	{Name: "same-static-route-through-the-shortcut", Build: func(n int) *world {
-		w := newWorld(planFor(n, func(t int) []reqSpec { return []reqSpec{{"GET", "/s", nil}} }))
+		w := newWorld(planFor(n, func(t int) []reqSpec { return []reqSpec{{Method: "GET", Path: "/s"}} }))
 		w.f.Get("/s", func(c flamego.Context) string {
 			sched.Point()
 			w.own(c)
@@ -270,7 +275,7 @@ var scenarios = []scenario{
 	}},
 	{Name: "regex+matchall+optional-backtracking", Build: func(n int) *world {
 		paths := []string{"/a/1/y", "/a/1/2/z", "/a", "/a/b7/x"}
-		w := newWorld(planFor(n, func(t int) []reqSpec { return []reqSpec{{"GET", paths[t%4], nil}} }))
+		w := newWorld(planFor(n, func(t int) []reqSpec { return []reqSpec{{Method: "GET", Path: paths[t%4]}} }))
 		h := func(c flamego.Context) string {
 			sched.Point()
 			w.own(c)
@@ -286,7 +291,7 @@ var scenarios = []scenario{
 	}},
 	{Name: "same-match-all-in-the-middle,different-captures", Build: func(n int) *world {
 		w := newWorld(planFor(n, func(t int) []reqSpec {
-			return []reqSpec{{"GET", fmt.Sprintf("/t/w%d/x%d/z", t, t), nil}}
+			return []reqSpec{{Method: "GET", Path: fmt.Sprintf("/t/w%d/x%d/z", t, t)}}
 		}))
 		w.f.Get("/t/{m: **}/z", func(c flamego.Context) string {
 			sched.Point()
@@ -298,7 +303,7 @@ var scenarios = []scenario{
 		return w
 	}},
 	{Name: "status-and-body-handlers(built-in-fast-path)-on-every-thread", Build: func(n int) *world {
-		w := newWorld(planFor(n, func(t int) []reqSpec { return []reqSpec{{"GET", fmt.Sprintf("/t%d", t), nil}} }))
+		w := newWorld(planFor(n, func(t int) []reqSpec { return []reqSpec{{Method: "GET", Path: fmt.Sprintf("/t%d", t)}} }))
 		for t := 0; t < n; t++ {
 			t := t
 			// func() (int, string): the handler type the framework wraps in its own fast invoker; a hook before
@@ -313,7 +318,7 @@ var scenarios = []scenario{
 		return w
 	}},
 	{Name: "services-inherited-from-a-parent-injector", Build: func(n int) *world {
-		w := newWorld(planFor(n, func(t int) []reqSpec { return []reqSpec{{"GET", fmt.Sprintf("/svc/%d", t), nil}} }))
+		w := newWorld(planFor(n, func(t int) []reqSpec { return []reqSpec{{Method: "GET", Path: fmt.Sprintf("/svc/%d", t)}} }))
 		base := inject.New()
 		base.Map(&parentService{name: "from-the-parent"})
 		w.f.SetParent(base)
@@ -327,9 +332,9 @@ var scenarios = []scenario{
 	{Name: "header-constrained", Build: func(n int) *world {
 		w := newWorld(planFor(n, func(t int) []reqSpec {
 			if t%2 == 0 {
-				return []reqSpec{{"GET", "/h", map[string]string{"X-K": "v"}}}
+				return []reqSpec{{Method: "GET", Path: "/h", Hdr: map[string]string{"X-K": "v"}}}
 			}
-			return []reqSpec{{"GET", "/h", nil}}
+			return []reqSpec{{Method: "GET", Path: "/h"}}
 		}))
 		w.f.Get("/h", func(c flamego.Context) string { sched.Point(); w.own(c); return "gated" }).Headers("X-K", "^v$")
 		w.f.Get("/{m: **}", func(c flamego.Context) string { sched.Point(); w.own(c); return "fallback " + c.Param("m") })
@@ -339,18 +344,18 @@ var scenarios = []scenario{
 		w := newWorld(planFor(n, func(t int) []reqSpec {
 			switch t % 3 {
 			case 0:
-				return []reqSpec{{"GET", "/h2", map[string]string{"X-A": "1"}}} // passes the first constraint, fails the second
+				return []reqSpec{{Method: "GET", Path: "/h2", Hdr: map[string]string{"X-A": "1"}}} // passes the first constraint, fails the second
 			case 1:
-				return []reqSpec{{"GET", "/h2", map[string]string{"X-B": "1"}}}
+				return []reqSpec{{Method: "GET", Path: "/h2", Hdr: map[string]string{"X-B": "1"}}}
 			}
-			return []reqSpec{{"GET", "/h2", map[string]string{"X-A": "1", "X-B": "1"}}}
+			return []reqSpec{{Method: "GET", Path: "/h2", Hdr: map[string]string{"X-A": "1", "X-B": "1"}}}
 		}))
 		w.f.Get("/h2", func(c flamego.Context) string { sched.Point(); w.own(c); return "gated" }).Headers("X-A", "^1$", "X-B", "^1$")
 		w.f.Get("/{m: **}", func(c flamego.Context) string { sched.Point(); w.own(c); return "fallback " + c.Param("m") })
 		return w
 	}},
 	{Name: "three-Use-calls+several-handlers+action", Build: func(n int) *world {
-		w := newWorld(planFor(n, func(t int) []reqSpec { return []reqSpec{{"GET", fmt.Sprintf("/m/%d", t), nil}} }))
+		w := newWorld(planFor(n, func(t int) []reqSpec { return []reqSpec{{Method: "GET", Path: fmt.Sprintf("/m/%d", t)}} }))
 		for i := 0; i < 3; i++ {
 			i := i
 			w.f.Use(func(c flamego.Context) { sched.Point(); w.note("mw%d:%s", i, c.Param("k")) })
@@ -369,7 +374,7 @@ var scenarios = []scenario{
 		// after three separate Use calls the middleware slice has spare capacity for exactly one more
 		// handler: the shape in which an aliasing append would make two requests share a slot
 		paths := []string{"/one/a", "/two/b"}
-		w := newWorld(planFor(n, func(t int) []reqSpec { return []reqSpec{{"GET", paths[t%2], nil}} }))
+		w := newWorld(planFor(n, func(t int) []reqSpec { return []reqSpec{{Method: "GET", Path: paths[t%2]}} }))
 		for i := 0; i < 3; i++ {
 			i := i
 			w.f.Use(func(c flamego.Context) { sched.Point(); w.note("mw%d", i) })
@@ -381,9 +386,9 @@ var scenarios = []scenario{
 	{Name: "logger+recovery,one-request-panics", Build: func(n int) *world {
 		w := newWorld(planFor(n, func(t int) []reqSpec {
 			if t == 0 {
-				return []reqSpec{{"GET", "/boom", nil}}
+				return []reqSpec{{Method: "GET", Path: "/boom"}}
 			}
-			return []reqSpec{{"GET", fmt.Sprintf("/fine/%d", t), nil}}
+			return []reqSpec{{Method: "GET", Path: fmt.Sprintf("/fine/%d", t)}}
 		}))
 		w.f.Use(flamego.Logger(), flamego.Recovery())
 		w.f.Get("/boom", func(c flamego.Context) { sched.Point(); w.own(c); panic("boom-marker") })
@@ -392,7 +397,7 @@ var scenarios = []scenario{
 	}},
 	{Name: "recovery,every-request-panics-in-a-handler-of-its-own", Build: func(n int) *world {
 		w := newWorld(planFor(n, func(t int) []reqSpec {
-			return []reqSpec{{"GET", fmt.Sprintf("/boom/%d", t), nil}}
+			return []reqSpec{{Method: "GET", Path: fmt.Sprintf("/boom/%d", t)}}
 		}))
 		w.f.Use(flamego.Recovery())
 		hs := []func(c flamego.Context){panicOfThread0, panicOfThread1, panicOfThread2, panicOfThread3}
@@ -402,9 +407,24 @@ var scenarios = []scenario{
 		}
 		return w
 	}},
+	{Name: "request-bodies-read-and-held", Build: func(n int) *world {
+		w := newWorld(planFor(n, func(t int) []reqSpec {
+			return []reqSpec{{Method: "POST", Path: fmt.Sprintf("/echo/%d", t), Body: strings.Repeat(string(rune('a'+t)), 24)}}
+		}))
+		w.f.Post("/echo/{k}", func(c flamego.Context) {
+			w.own(c)
+			// the bytes are read, held across a point at which another request may read its own body, and only
+			// then looked at
+			b, err := c.Request().Body().Bytes()
+			sched.Point()
+			w.note("body-as-bytes=%q err=%v", b, err)
+			_, _ = c.ResponseWriter().Write(b)
+		}, func(c flamego.Context) {})
+		return w
+	}},
 	{Name: "bodies-streamed-from-a-reader", Build: func(n int) *world {
 		w := newWorld(planFor(n, func(t int) []reqSpec {
-			return []reqSpec{{"GET", fmt.Sprintf("/stream/%d", t), nil}}
+			return []reqSpec{{Method: "GET", Path: fmt.Sprintf("/stream/%d", t)}}
 		}))
 		w.f.Get("/stream/{k}", func(c flamego.Context) {
 			w.own(c)
@@ -415,7 +435,7 @@ var scenarios = []scenario{
 	}},
 	{Name: "return-values+fast-path+renderer", Build: func(n int) *world {
 		paths := []string{"/json", "/text", "/tea", "/bytes", "/err"}
-		w := newWorld(planFor(n, func(t int) []reqSpec { return []reqSpec{{"GET", paths[t%4], nil}} }))
+		w := newWorld(planFor(n, func(t int) []reqSpec { return []reqSpec{{Method: "GET", Path: paths[t%4]}} }))
 		w.f.Use(flamego.Renderer())
 		w.f.Get("/tea", func() (int, string) { sched.Point(); return 418, "teapot" })
 		w.f.Get("/json", func(r flamego.Render, c flamego.Context) {
@@ -432,7 +452,7 @@ var scenarios = []scenario{
 		// a service mapped on the Flame by its concrete type and consumed through an interface it
 		// implements (resolved by scanning the shared application injector), plus a request-scoped
 		// value consumed the same way
-		w := newWorld(planFor(n, func(t int) []reqSpec { return []reqSpec{{"GET", fmt.Sprintf("/i/%d", t), nil}} }))
+		w := newWorld(planFor(n, func(t int) []reqSpec { return []reqSpec{{Method: "GET", Path: fmt.Sprintf("/i/%d", t)}} }))
 		w.f.Map(&appStore{name: "app-store"})
 		w.f.Use(func(c flamego.Context) { sched.Point(); c.Map(&reqVal{id: "req-" + c.Param("k")}) })
 		w.f.Get("/i/{k}", func(c flamego.Context, st namer, rv ider) string {
@@ -447,7 +467,7 @@ var scenarios = []scenario{
 		// application middleware incl. Static (serving a real file) in front of a user not-found chain;
 		// one thread is served a file, the others fall through to not-found / a route
 		paths := []string{"/file.txt", "/missing", "/r/1", "/"}
-		w := newWorld(planFor(n, func(t int) []reqSpec { return []reqSpec{{"GET", paths[t%4], nil}} }))
+		w := newWorld(planFor(n, func(t int) []reqSpec { return []reqSpec{{Method: "GET", Path: paths[t%4]}} }))
 		w.f.Use(flamego.Static(flamego.StaticOptions{Directory: staticFixture(), SetETag: true}))
 		w.f.Use(func(c flamego.Context) { sched.Point(); w.note("mw:%s", c.Request().URL.Path) })
 		w.f.NotFound(func(c flamego.Context) string {
@@ -461,7 +481,7 @@ var scenarios = []scenario{
 	}},
 	{Name: "optional-named-route-URLs+cookies+query", Build: func(n int) *world {
 		w := newWorld(planFor(n, func(t int) []reqSpec {
-			return []reqSpec{{"GET", fmt.Sprintf("/users/u%d/settings", t), map[string]string{"Cookie": fmt.Sprintf("ck=v%d", t)}}}
+			return []reqSpec{{Method: "GET", Path: fmt.Sprintf("/users/u%d/settings", t), Hdr: map[string]string{"Cookie": fmt.Sprintf("ck=v%d", t)}}}
 		}))
 		h := func(c flamego.Context) string {
 			sched.Point()
@@ -481,7 +501,7 @@ var scenarios = []scenario{
 		return w
 	}},
 	{Name: "response-writer-hooks+flush+nested-invoke", Build: func(n int) *world {
-		w := newWorld(planFor(n, func(t int) []reqSpec { return []reqSpec{{[]string{"GET", "HEAD"}[t%2], fmt.Sprintf("/w/%d", t), nil}} }))
+		w := newWorld(planFor(n, func(t int) []reqSpec { return []reqSpec{{Method: []string{"GET", "HEAD"}[t%2], Path: fmt.Sprintf("/w/%d", t)}} }))
 		w.f.Map(&appStore{name: "store"})
 		w.f.Use(func(c flamego.Context) {
 			t := w.me()
@@ -510,7 +530,7 @@ var scenarios = []scenario{
 	}},
 	{Name: "two-requests-per-thread(warm-and-cold-caches)", Build: func(n int) *world {
 		w := newWorld(planFor(n, func(t int) []reqSpec {
-			return []reqSpec{{"GET", fmt.Sprintf("/w/%d/first", t), nil}, {"GET", fmt.Sprintf("/w/%d/second", t), nil}}
+			return []reqSpec{{Method: "GET", Path: fmt.Sprintf("/w/%d/first", t)}, {Method: "GET", Path: fmt.Sprintf("/w/%d/second", t)}}
 		}))
 		w.f.Use(func(c flamego.Context) { c.Map(&reqVal{id: c.Param("a") + "-" + c.Param("b")}) })
 		w.f.Get("/w/{a}/{b}", func(c flamego.Context, v *reqVal) string {
